@@ -314,7 +314,7 @@ def run_controls(ctx, pid, rule_ids):
     from .controls import CONTROLS
     for rid in rule_ids:
         ent = CONTROLS.get(rid)
-        if ent is None or ent[0] != pid:
+        if ent is None or (ent[0] is not None and ent[0] != pid):
             continue
         _, sources, want = ent
         try:
